@@ -8,7 +8,7 @@ usage: tools/run_seeded.py [--tier quick|thorough] [id ...]
 import json, os, subprocess, sys, re, time
 
 ROOT = os.path.dirname(os.path.dirname(os.path.abspath(__file__)))
-REPO = "/repo"
+REPO = os.environ.get("VERIF_REPO", "/repo")
 
 
 def sh(cmd, cwd=None, timeout=3600):
